@@ -168,7 +168,7 @@ where
     ) -> Result<()> {
         // check if the range is valid
         let leaves_len = leaves.len();
-        if start + leaves_len > self.capacity() {
+        if start > self.capacity() || leaves_len > self.capacity() - start {
             return Err(Report::msg("provided range exceeds set size"));
         }
         for (i, leaf) in leaves.enumerate() {
